@@ -215,6 +215,28 @@ impl Group for Negotiation {
             return Some((format!("lossless:{line}"), format!("the body sent does not decode to the identity body: {out}")));
         }
         let p: Vec<&str> = line.split(' ').collect();
+        if out == "200 identity" && p[4] != "none" {
+            // the client forbade identity (a well-formed `identity;q=0` item): an identity body is not an answer, whatever
+            // the media type, the size or the handler's preference are
+            let ae = String::from_utf8_lossy(&unhex(p[4]).unwrap()).into_owned();
+            let forbidden = ae.split(',').any(|item| {
+                let parts: Vec<&str> = item.split(';').collect();
+                parts.len() == 2 && parts[0].trim() == "identity" && {
+                    let prm = parts[1].trim();
+                    prm.strip_prefix("q=").map_or(false, |q| {
+                        let q = q.trim();
+                        let (int, frac) = q.split_once('.').unwrap_or((q, ""));
+                        int == "0" && frac.len() <= 3 && frac.chars().all(|c| c == '0')
+                    })
+                }
+            });
+            let len: usize = p[2].chars().filter(|c| c.is_ascii_digit()).collect::<String>().parse().unwrap();
+            // (kvarn answers bodies under 50 bytes and handlers that opted out with identity without looking at the
+            // header — the statement lists those as identity cases — so the clause is judged on the others)
+            if forbidden && len >= 50 && p[1] == "1" {
+                return Some((format!("identity-forbidden:{line}"), format!("the client sent `{ae}` (identity;q=0) and was answered 200 with the identity body")));
+            }
+        }
         if let Some(enc) = out.strip_prefix("200 ") {
             if enc != "identity" {
                 // must be listed by the client with a non-zero quality (independent check on the raw header)
